@@ -344,7 +344,8 @@ pub fn run(case: &Case) -> Vec<Violation> {
             out.push(v("wrong-name", format!("event {i}: file name {:?} ({} bytes), expected {:?} ({} bytes)", String::from_utf8_lossy(name), name.len(), String::from_utf8_lossy(&e.name), e.name.len())));
             break;
         }
-        if *path != e.path {
+        // (Byte-wise: `Path` equality ignores a trailing separator, the file system does not.)
+        if path.as_os_str().as_encoded_bytes() != e.path.as_os_str().as_encoded_bytes() {
             out.push(v("wrong-path", format!("event {i}: path_for gives {path:?}, expected {:?}", e.path)));
             break;
         }
